@@ -11,7 +11,8 @@ namespace MQ
 /-- a consumer task is put on the consumers' list only by the step that evaluated the wake-up condition
 *while holding the list lock* and found it false; if the condition holds, the task does not park but retries -/
 theorem C14_park_rechecks_under_lock (σ : St) (t j seq : Nat) (b : Bool) :
-    (b = true → (checkDone σ t j seq .parked b).cwaitL = σ.cwaitL ∧ ((checkDone σ t j seq .parked b).th t).pc = .la1) ∧
+    (b = true → (checkDone σ t j seq .parked b).cwaitL = σ.cwaitL ∧
+      (((checkDone σ t j seq .parked b).th t).pc = .la1 ∨ ((checkDone σ t j seq .parked b).th t).pc = .is1)) ∧
     (b = false → (checkDone σ t j seq .parked b).cwaitL = σ.cwaitL ++ [t] ∧
                  ((checkDone σ t j seq .parked b).th t).pc = .psl) := by
   constructor
